@@ -857,7 +857,14 @@ func (fv *FuncVerifier) callWrites(env *Env, call *ast.CallExpr, ws *writeSet, d
 			}
 			return
 		}
-		if fi, ok := fv.prog.ByObj[fn.Origin()]; ok {
+		fiW, okW := fv.prog.ByObj[fn.Origin()]
+		if !okW {
+			// interface method with a trusted wrapper contract (iface_<Iface>_<Method>)
+			if wfi := fv.ifaceWrapper(fn); wfi != nil {
+				fiW, okW = wfi, true
+			}
+		}
+		if fi, ok := fiW, okW; ok {
 			c := fi.Contr
 			if c != nil && c.Has("pure", 0) {
 				return
@@ -878,6 +885,27 @@ func (fv *FuncVerifier) callWrites(env *Env, call *ast.CallExpr, ws *writeSet, d
 						if strings.HasPrefix(tgt, "content(") {
 							ws.heap[contentKey] = true
 							ws.addBase(contentKey, nil)
+							continue
+						}
+						if strings.HasPrefix(tgt, "abs(") && strings.HasSuffix(tgt, ")") {
+							if k := absKey(fv.pathType(fi, tgt[len("abs("):len(tgt)-1])); k != "" {
+								ws.heap[k] = true
+								pth := strings.TrimSpace(tgt[len("abs(") : len(tgt)-1])
+								var base ast.Expr
+								if !strings.Contains(pth, ".") {
+									if strings.Contains(fi.Key, ".iface_") && fi.Decl.Type.Params.NumFields() > 0 && len(fi.Decl.Type.Params.List[0].Names) > 0 && fi.Decl.Type.Params.List[0].Names[0].Name == pth {
+										// wrapper of an interface method: its first parameter is the receiver of the real call
+										if sel, ok := ast.Unparen(call.Fun).(*ast.SelectorExpr); ok {
+											base = sel.X
+										}
+									} else {
+										base = fv.argExprByName(fi, call, pth)
+									}
+								}
+								ws.addBase(k, base)
+							} else {
+								ws.heapAll = true
+							}
 							continue
 						}
 						parts := strings.Split(tgt, ".")
@@ -943,6 +971,62 @@ func (fv *FuncVerifier) callWrites(env *Env, call *ast.CallExpr, ws *writeSet, d
 			fv.collectWrites(env, lit.Body, ws, depth+1)
 		}
 	}
+}
+
+// ifaceWrapper returns the trusted wrapper function iface_<Iface>_<Method> carrying the contract of an interface
+// method of /repo, if there is one.
+func (fv *FuncVerifier) ifaceWrapper(fn *types.Func) *FuncInfo {
+	if fn.Pkg() == nil || !strings.HasPrefix(fn.Pkg().Path(), repoModule) {
+		return nil
+	}
+	k := ifaceKey(fn)
+	parts := strings.Split(k, ".")
+	if k == "" || len(parts) < 3 {
+		return nil
+	}
+	wkey := strings.Join(parts[:len(parts)-2], ".") + ".iface_" + parts[len(parts)-2] + "_" + parts[len(parts)-1]
+	if wfi := fv.prog.Funcs[wkey]; wfi != nil && wfi.Contr != nil && wfi.Obj != nil {
+		return wfi
+	}
+	return nil
+}
+
+// pathType: static type of a parameter path p.f.g of function fi.
+func (fv *FuncVerifier) pathType(fi *FuncInfo, path string) types.Type {
+	parts := strings.Split(strings.TrimSpace(path), ".")
+	var ct types.Type
+	info := fi.Pkg.TypesInfo
+	find := func(fl *ast.FieldList) {
+		if fl == nil {
+			return
+		}
+		for _, f := range fl.List {
+			for _, n := range f.Names {
+				if n.Name == parts[0] {
+					if o := info.Defs[n]; o != nil {
+						ct = o.Type()
+					}
+				}
+			}
+		}
+	}
+	find(fi.Decl.Recv)
+	find(fi.Decl.Type.Params)
+	for k := 1; k < len(parts) && ct != nil; k++ {
+		p, ok := ct.Underlying().(*types.Pointer)
+		if !ok {
+			return nil
+		}
+		stt, _ := p.Elem().Underlying().(*types.Struct)
+		var next types.Type
+		for j := 0; stt != nil && j < stt.NumFields(); j++ {
+			if stt.Field(j).Name() == parts[k] {
+				next = stt.Field(j).Type()
+			}
+		}
+		ct = next
+	}
+	return ct
 }
 
 func (fv *FuncVerifier) mapArgWrites(env *Env, call *ast.CallExpr, ws *writeSet, depth int) {
@@ -1197,6 +1281,26 @@ func (fv *FuncVerifier) loopHeapFrame(entry, head *State, env *Env, ws *writeSet
 		okAll := true
 		for _, b := range ws.heapBases[key] {
 			id, isId := ast.Unparen(b).(*ast.Ident)
+			if sel, isSel := ast.Unparen(b).(*ast.SelectorExpr); isSel && !isId {
+				// base of the form x.f with x a variable the loop does not assign and f a field the loop does not write:
+				// the object is the one x.f refers to on loop entry
+				if xid, ok := ast.Unparen(sel.X).(*ast.Ident); ok {
+					if o := env.info.ObjectOf(xid); o != nil && !ws.vars[o] {
+						if s, ok := env.info.Selections[sel]; ok && s.Kind() == types.FieldVal && len(s.Index()) == 1 {
+							fk := fieldKey(env.info.TypeOf(sel.X), s.Obj().Name())
+							xv, has := head.vars[o]
+							if !has && env.binds != nil {
+								xv, has = env.binds[o]
+							}
+							if has && xv.Sort == SRef && !ws.heap[fk] && fv.sortOf(s.Obj().Type()) == SRef {
+								v := fv.readField(entry, xv, fk, SRef)
+								excl = append(excl, Not(App(SBool, "=", Term{"r$", SRef}, v)))
+								continue
+							}
+						}
+					}
+				}
+			}
 			if !isId {
 				okAll = false
 				break
@@ -1607,6 +1711,12 @@ func (fv *FuncVerifier) evalIterator(st *State, env *Env, e ast.Expr) iterInfo {
 			if h, ok := iterMethodValues[full]; ok {
 				fv.externUsed[full] = true
 				return h(fv, st, env, sel)
+			}
+			// method value of a /repo method whose contract says `iterator`: it only calls the callback (no effect of
+			// its own); what it yields is the unconstrained ghost sequence spec_yielded(value)
+			if fi, ok := fv.prog.ByObj[s.Obj().(*types.Func).Origin()]; ok && fi.Contr != nil && fi.Contr.Has("iterator", 0) {
+				fv.calleesUsed[fi.Key+" (iterator contract)"] = true
+				return iterInfo{val: fv.eval(st, env, e), pure: true}
 			}
 		}
 	}
